@@ -555,7 +555,7 @@ def run_cases(ctx, cases):
 def run(ctx):
     cases = [("corpus-%d" % i, spec, steps) for i, (spec, steps) in enumerate(CORPUS)]
     rng = ctx.rng
-    for i in range(ctx.n(110, 1800)):
+    for i in range(ctx.n(75, 1400)):
         spec, steps = gen_case(rng, rng.choice([3, 5, 7, 9]))
         cases.append(("gen-%d" % i, spec, steps))
     run_cases(ctx, cases)
